@@ -82,6 +82,9 @@ def make_iface(rng, table, kind, usertags, nstructs=None):
     return iface
 
 
+RUNS = [0]
+
+
 def run_real(kind, files, table, iface):
     """files: {template file name: [lines]} -> {output file name: text}, or ('EXC', type name)"""
     with kj.scratch() as d:
@@ -92,7 +95,26 @@ def run_real(kind, files, table, iface):
                 f.write("".join(lines))
         out = os.path.join(d, "out")
         try:
-            kj.generate(kind, out, table=table, iface=iface, name="Probe", templatedir=td)
+            holder = None
+            RUNS[0] += 1
+            if RUNS[0] % 4 == 0 and kind in ("cpp", "cs", "py"):
+                # every fourth run: the caller keeps its generator object; it has already generated ANOTHER model (other table, other
+                # user-tag values on the same Interface object) into another directory before it is asked for this one
+                holder = {}
+                saved = dict(iface.UserTags()) if hasattr(iface, "UserTags") else {}
+                try:
+                    for k_ in list(saved):
+                        iface.AddUserTag(k_, "earlier")
+                    kj.generate(kind, out, table=[["Zq0", "Ev0", "Zq1", "OnZq", "None"], ["Zq1", "Ev1", "Zq0", "None", "IsZq"]], iface=iface, name="Probe",
+                                templatedir=td, holder=holder)
+                except Exception:  # noqa -- the earlier model need not be accepted
+                    pass
+                finally:
+                    for k_, v_ in saved.items():
+                        iface.AddUserTag(k_, v_)
+                import shutil as _sh
+                _sh.rmtree(out, ignore_errors=True)
+            kj.generate(kind, out, table=table, iface=iface, name="Probe", templatedir=td, holder=holder)
         except Exception as e:  # noqa
             return ("EXC", type(e).__name__, str(e)[:200])
         res = {}
